@@ -201,16 +201,20 @@ Section Model.
       (st', Ok {| cFun := EIGS; cA := A; cM := B'; cMisB := misB; cK := Some nmodes; cSigma := Some sigma;
                   cMode := None; cOPinv := Some ainv2 |}).
 
+  (* self.is_sparse / self.is_hermitian as computed at the top of _response *)
+  Definition pencil_sparse (p : pencil) : bool :=
+    pAsp p && match pB p with None => true | Some _ => pBsp p end.
+  Definition herm_flag (st : estate) (p : pencil) : bool :=
+    match sHerm st with
+    | Some h => h
+    | None => is_hermitian_mat (pAsp p) (pA p) &&
+              match pB p with None => true | Some b => is_hermitian_mat (pBsp p) b end
+    end.
+
   (* _response up to and including the library call *)
   Definition response (st : estate) (p : pencil) : estate * res libcall :=
-    let herm :=
-      match sHerm st with
-      | Some h => h
-      | None => is_hermitian_mat (pAsp p) (pA p) &&
-                match pB p with None => true | Some b => is_hermitian_mat (pBsp p) b end
-      end in
-    let sparse := pAsp p && match pB p with None => true | Some _ => pBsp p end in
-    if sparse then sparse_eigs st herm (pA p) (pB p)
+    let herm := herm_flag st p in
+    if pencil_sparse p then sparse_eigs st herm (pA p) (pB p)
     else
       ({| sHerm := Some herm; sNmodes := sNmodes st; sSigma := sSigma st; sMode := sMode st;
           sAinv := sAinv st; sDoSolve := sDoSolve st; sAdjUpd := true |},
@@ -242,6 +246,36 @@ Section Model.
     let s := match sigma with None => nzero | Some s => s end in
     if truthy_sigma_zero s then pA p
     else mshift (pA p) s (match pB p with None => eye (length (pA p)) | Some b => b end).
+
+  (* what the library call issued in state st on pencil p must look like: the operator passed as OPinv is a solver
+     whose last update was with the CURRENT A - sigma B, and k / sigma / M are the current nmodes (default 6),
+     sigma (default 0) and B (identity when absent and sigma <> 0) *)
+  Definition call_current (st : estate) (p : pencil) (c : libcall) : Prop :=
+    if pencil_sparse p then
+      exists kind,
+        cOPinv c = Some (kind, Some (shifted_of (sSigma st) p)) /\
+        cK c = Some (match sNmodes st with None => 6%Z | Some k => k end) /\
+        cSigma c = Some (match sSigma st with None => nzero | Some s => s end) /\
+        cM c = (if truthy_sigma_zero (match sSigma st with None => nzero | Some s => s end) then pB p
+                else Some (match pB p with None => eye (length (pA p)) | Some b => b end))
+    else cOPinv c = None /\ cM c = pB p.
+  (* ... for every call of a history *)
+  Fixpoint history_current (st : estate) (os : list op) : Prop :=
+    match os with
+    | [] => True
+    | o :: t =>
+        match o with
+        | OpCall p => match snd (response st p) with
+                      | Ok c => call_current st p c
+                      | Err _ => True
+                      end
+        | OpSetSigma _ => True
+        end /\ history_current (fst (step st o)) t
+    end.
+
+  (* contract of np.sqrt on the values that pass the assertion *)
+  Definition sqrt_contract : Prop :=
+    forall v, knormable ops v = true -> nmul (ksqrt ops v) (ksqrt ops v) = v /\ v <> nzero.
 
   (* ============================================================================================ *)
   (* correspondence checks (evaluated by vm_compute in the generated case files)                    *)
@@ -405,3 +439,18 @@ Definition sortC_abs := @sort_abs QC NumQCd opsQC.
 Definition sortC_dist := @sort_dist QC NumQCd opsQC.
 Definition sortC_firstk := @sort_firstk QC NumQCd opsQC.
 Definition sortC_row0 := @sort_row0 QC NumQCd opsQC.
+
+(* concrete instances for the non-vacuity examples of Props/C11.v *)
+Definition exA : @QMat.mat R := [[2; 0]; [0; 1]]%R.
+Definition exW : list R := [2; 1]%R.
+Definition exQ : @QMat.mat R := [[-1; 0]; [0; 2]]%R.
+(* a three-call history on the rational instance: default sigma, then m.sigma = 2, changing A *)
+Definition exP1 : @pencil Q := Build_pencil [[2; 1]; [1; 3]]%Q true None false.
+Definition exP2 : @pencil Q := Build_pencil [[5; 1]; [1; 4]]%Q true None false.
+Definition ex_history : list (@op Q) := [OpCall exP1; OpCall exP2; OpSetSigma (Some 2%Q); OpCall exP1].
+Definition ex_opinvs : list (option (@QMat.mat Q)) :=
+  map (fun c => match c with
+                | Some (Ok c) => match @cOPinv Q c with Some (_, m) => m | None => None end
+                | _ => None
+                end)
+      (@run Q NumQd opsQ (fun _ _ => O) (prepare None None None 0) ex_history).
